@@ -215,9 +215,39 @@ def andThen (a b : Except (Err N) Unit) : Except (Err N) Unit :=
   | .error e => .error e
   | .ok () => b
 
-infixr:60 " >>> " => andThen
+infixr:60 " ⨾ " => andThen
 
 /-! ## `_validate_attr` -/
+
+def Hi.isNum : Hi → Bool
+  | .num _ => true
+  | _ => false
+
+/-- `isinstance(hi, int) and n > hi` -/
+def Hi.ltNat (hi : Hi) (n : Nat) : Bool :=
+  match hi with
+  | .num h => n > h
+  | _ => false
+
+def isBadNameFacet : Option FacetVal → Bool
+  | some (.str _) => false
+  | some _ => true
+  | none => false
+
+/-- `not (numeric and isinstance(attr.facets[facet], (int, float)))` when the facet is present. -/
+def badMinMax (numeric : Bool) : Option FacetVal → Bool
+  | some v => ¬ (numeric ∧ v.isNumeric)
+  | none => false
+
+def minGtMax : Option FacetVal → Option FacetVal → Bool
+  | some lo, some hi => lo.key > hi.key
+  | _, _ => false
+
+/-- `schema.enums[attr.target].keywords()` -/
+def enumKeywords (s : Schema N) (t : Option String) : List String :=
+  match t.bind (findEnum s) with
+  | some e => e.items.map (·.1)
+  | none => []
 
 def targetIn (t : Option String) (names : List String) : Bool :=
   match t with
@@ -230,10 +260,7 @@ def validateDefault (s : Schema N) (a : Attr N) (d : Default) : Except (Err N) U
     match d with
     | .str k =>
       -- `schema.enums[attr.target].keywords()`; the target was checked to be declared before
-      let keywords := match a.target.bind (findEnum s) with
-        | some e => e.items.map (·.1)
-        | none => []
-      chk (k ∉ keywords) a.line .enumDefaultNotKw
+      chk (k ∉ enumKeywords s a.target) a.line .enumDefaultNotKw
     | _ => .error (a.line, .enumDefaultKeyword)
   else if a.type = .ref ∨ a.type = .id ∨ a.type = .chars then .error (a.line, .noDefaultAllowed)
   else if a.type = .bool then
@@ -247,34 +274,28 @@ def validateDefault (s : Schema N) (a : Attr N) (d : Default) : Except (Err N) U
     match d with
     | .str _ => .error (a.line, .numericDefault)
     | .num _ =>
-      chk (1 < a.arity.lo) a.line .defaultTooShort >>>
-      chk (match a.arity.hi with | .num h => 1 > h | _ => false) a.line .defaultTooLong
+      chk (1 < a.arity.lo) a.line .defaultTooShort ⨾
+      chk (a.arity.hi.ltNat 1) a.line .defaultTooLong
     | .vec ds =>
-      chk a.arity.isScalar a.line .vectorForScalar >>>
-      chk (ds.length < a.arity.lo) a.line .defaultTooShort >>>
-      chk (match a.arity.hi with | .num h => ds.length > h | _ => false) a.line .defaultTooLong
+      chk a.arity.isScalar a.line .vectorForScalar ⨾
+      chk (ds.length < a.arity.lo) a.line .defaultTooShort ⨾
+      chk (a.arity.hi.ltNat ds.length) a.line .defaultTooLong
 
 /-- `_validate_attr(schema, attr, namespaces)`; `ns` are the targets of all `id<...>` attributes. -/
 def validateAttr (s : Schema N) (ns : List (Option String)) (a : Attr N) : Except (Err N) Unit :=
-  chk ((a.type = .enum ∨ a.type = .flags) ∧ ¬ targetIn a.target (enumNames s)) a.line .danglingEnum >>>
-  chk (a.type = .ref ∧ a.target ∉ ns) a.line .danglingRef >>>
-  chk ((a.type = .file ∨ a.type = .bool) ∧ ¬ a.arity.isScalar) a.line .notVector >>>
-  chk (a.type = .chars ∧ ¬ (match a.arity.hi with | .num _ => true | _ => false)) a.line .charsUnbounded >>>
-  chk ((a.facets.get "pattern").isSome ∧ ¬ (a.type = .string ∨ a.type = .chars)) a.line .patternText >>>
-  chk (match a.facets.get "min" with
-       | some v => ¬ (a.type.numeric ∧ v.isNumeric)
-       | none => false) a.line .minMaxNumeric >>>
-  chk (match a.facets.get "max" with
-       | some v => ¬ (a.type.numeric ∧ v.isNumeric)
-       | none => false) a.line .minMaxNumeric >>>
-  chk (match a.facets.get "min", a.facets.get "max" with
-       | some lo, some hi => lo.key > hi.key
-       | _, _ => false) a.line .minMaxOrder >>>
-  chk (truthy (a.facets.get "positive") ∧ ¬ a.type.numeric) a.line .positiveNumeric >>>
-  chk (truthy (a.facets.get "required") ∧ a.default.isSome) a.line .requiredDefault >>>
-  match a.default with
-  | none => .ok ()
-  | some d => validateDefault s a d
+  chk ((a.type = .enum ∨ a.type = .flags) ∧ ¬ targetIn a.target (enumNames s)) a.line .danglingEnum ⨾
+  chk (a.type = .ref ∧ a.target ∉ ns) a.line .danglingRef ⨾
+  chk ((a.type = .file ∨ a.type = .bool) ∧ ¬ a.arity.isScalar) a.line .notVector ⨾
+  chk (a.type = .chars ∧ ¬ a.arity.hi.isNum) a.line .charsUnbounded ⨾
+  chk ((a.facets.get "pattern").isSome ∧ ¬ (a.type = .string ∨ a.type = .chars)) a.line .patternText ⨾
+  chk (badMinMax a.type.numeric (a.facets.get "min")) a.line .minMaxNumeric ⨾
+  chk (badMinMax a.type.numeric (a.facets.get "max")) a.line .minMaxNumeric ⨾
+  chk (minGtMax (a.facets.get "min") (a.facets.get "max")) a.line .minMaxOrder ⨾
+  chk (truthy (a.facets.get "positive") ∧ ¬ a.type.numeric) a.line .positiveNumeric ⨾
+  chk (truthy (a.facets.get "required") ∧ a.default.isSome) a.line .requiredDefault ⨾
+  (match a.default with
+   | none => Except.ok ()
+   | some d => validateDefault s a d)
 
 /-! ## `_validate` -/
 
@@ -284,7 +305,7 @@ def checkConNames (names : List String) (con : Constraint N) : Except (Err N) Un
 
 /-- The second `for group in schema.groups.values()` loop body. -/
 def validateGroup (g : Group N) : Except (Err N) Unit :=
-  forAll (checkConNames ((memberAttrs g.members).map (·.name))) (memberCons g.members) >>>
+  forAll (checkConNames ((memberAttrs g.members).map (·.name))) (memberCons g.members) ⨾
   if g.variant then
     forAll (fun m : Member N => match m with
       | .use u => .error (u.line, .variantUse)
@@ -300,8 +321,8 @@ def checkUses (s : Schema N) (ms : List (Member N)) : Except (Err N) Unit :=
 def checkChildren (s : Schema N) (seen : List String) : List (Child N) → Except (Err N) Unit
   | [] => .ok ()
   | c :: cs =>
-    chk (c.name ∉ elementNames s) c.line .danglingChild >>>
-    chk (c.name ∈ seen) c.line .dupChild >>>
+    chk (c.name ∉ elementNames s) c.line .danglingChild ⨾
+    chk (c.name ∈ seen) c.line .dupChild ⨾
     checkChildren s (c.name :: seen) cs
 
 /-- `seen_attrs.get(name)`: the line stored last for `name` (the dict is updated before the next
@@ -318,20 +339,21 @@ def checkDupAttrs (eline : Line N) (seen : List (String × Line N)) : List (Attr
     | none => checkDupAttrs eline ((a.name, a.line) :: seen) as
 
 def checkElementCon (names : List String) (con : Constraint N) : Except (Err N) Unit :=
-  checkConNames names con >>>
+  checkConNames names con ⨾
   chk (con.kind = .requires ∧ (con.bundles.length ≠ 2 ∨ con.bundles.any (fun b => b.length ≠ 1)))
     con.line .requiresTwo
 
+def danglingAlias (s : Schema N) : Option FacetVal → Bool
+  | some (.str a) => a ∉ elementNames s
+  | _ => false
+
 /-- Body of the `for element in schema.elements.values()` loop. -/
 def validateElement (s : Schema N) (e : Element N) : Except (Err N) Unit :=
-  chk (match e.facets.get "xml" with | some (.str _) => false | some _ => true | none => false)
-    e.line .facetName >>>
-  chk (match e.facets.get "alias" with | some (.str _) => false | some _ => true | none => false)
-    e.line .facetName >>>
-  chk (match e.facets.get "alias" with | some (.str a) => a ∉ elementNames s | _ => false)
-    e.line .danglingAlias >>>
-  checkChildren s [] (memberChildren e.members) >>>
-  checkDupAttrs e.line [] (expandedAttrs s e.members) >>>
+  chk (isBadNameFacet (e.facets.get "xml")) e.line .facetName ⨾
+  chk (isBadNameFacet (e.facets.get "alias")) e.line .facetName ⨾
+  chk (danglingAlias s (e.facets.get "alias")) e.line .danglingAlias ⨾
+  checkChildren s [] (memberChildren e.members) ⨾
+  checkDupAttrs e.line [] (expandedAttrs s e.members) ⨾
   forAll (checkElementCon ((expandedAttrs s e.members).map (·.name))) (memberCons e.members)
 
 /-- Member lists of `containers = groups + elements`. -/
@@ -344,10 +366,10 @@ def namespaces (s : Schema N) : List (Option String) :=
 
 /-- `_validate(schema)` -/
 def validate (s : Schema N) : Except (Err N) Unit :=
-  forAll (fun g : Group N => checkCycle s g.name [] g.line) s.groups >>>
-  forAll validateGroup s.groups >>>
-  forAll (checkUses s) (containers s) >>>
-  forAll (validateElement s) s.elements >>>
+  forAll (fun g : Group N => checkCycle s g.name [] g.line) s.groups ⨾
+  forAll validateGroup s.groups ⨾
+  forAll (checkUses s) (containers s) ⨾
+  forAll (validateElement s) s.elements ⨾
   forAll (fun ms => forAll (validateAttr s (namespaces s)) (memberAttrs ms)) (containers s)
 
 /-- `parse_string(text)`: the schema, or the (line, class) of the `SchemaError`. -/
